@@ -3,7 +3,6 @@
 package main
 
 import (
-	"fmt"
 	"math"
 	"strconv"
 	"strings"
@@ -16,7 +15,11 @@ func pu64(v uint64) *uint64 { return &v }
 func pb(v bool) *bool       { return &v }
 func ps(v string) *string   { return &v }
 
-var fieldNames = []string{"fa", "fb", "fooBar", "count", "itemId", "labels", "status", "kind", "alphaBetaGamma", "q"}
+// property names: canonical lowerCamel ones and names that do NOT survive snake_case -> lowerCamel
+// (acronyms, digits, capital runs at the start / middle / end, single letters). The declared name
+// travels in json_name, the proto name is its snake_case; all snake_case forms are distinct.
+var fieldNames = []string{"fa", "fb", "fooBar", "count", "itemId", "labels", "status", "kind", "alphaBetaGamma", "q",
+	"htmlURLs", "labelsByID", "x2y", "fooID", "aB", "URL", "aBC", "fooBarBAZ", "a1", "iD", "HTTPServer", "dataV2"}
 
 var descs = []string{"a field", "Two words, punctuated.", "line one\nline two", "ünïcode ✓", "with \"quotes\" and \\ backslash"}
 
@@ -626,9 +629,10 @@ func genSchemaOp(h *vh.H, i int) string {
 	}
 	segs = append(segs, root.Encode())
 	for k := 0; k < n; k++ {
+		// without replacement: names (and their snake_case proto names) stay distinct
 		name := vh.Pick(h, fieldNames)
-		if used[name] {
-			name = fmt.Sprintf("%s%c", name, 'A'+k)
+		for used[name] {
+			name = vh.Pick(h, fieldNames)
 		}
 		used[name] = true
 		s := genSpec(h, name, true)
